@@ -15,6 +15,13 @@ def main():
     ncfg = 6 if ck.thorough() else 5
     lps = family_stream(ck.rng, nlp, big=ck.thorough())
     cases, meta = [], {}
+    import glob as _glob
+    for k_, f_ in enumerate(sorted(_glob.glob(os.path.join(VERIF, "corpus", "C01", "*.json")))):
+        d_ = json.load(open(f_))
+        lp_ = lp_from_json(d_["lp"])
+        cid = "corpus%d.1" % k_
+        cases.append((cid, case_script(cid, lp_, d_["cfg"])))
+        meta[cid] = (lp_, d_["cfg"])
     for li, lp in enumerate(lps):
         for ci, cfg in enumerate(configs(ck.rng, lp, ncfg)):
             cid = "%d.%d" % (li, ci)
